@@ -145,6 +145,7 @@ struct Site { const char* file; unsigned long line; const char* text; };
 extern const Shape g_shapes[];
 extern const int g_nshapes;
 const Site& site_of(int shape, int slot);
+bool site_exists(int shape, int slot);
 
 std::string op_str(const Op& op);
 std::string outcome_str(const Outcome& o);
